@@ -1,20 +1,13 @@
 // Slot-layout specifications for tombstone compaction and index rebuilds (inside verus!, after backend_env.rs).
 // Pure spec text plus three uninterpreted ghost observers of the two opaque index stubs; nothing here is an axiom.
 //@include store_tokens_spec.rs
+//@include meta_layout_spec.rs
 
 // number of tombstoned (None) slots
 pub open spec fn count_none(s: Seq<Option<u64>>) -> nat
     decreases s.len()
 {
     if s.len() == 0 { 0 } else { count_none(s.drop_last()) + (if s.last().is_none() { 1nat } else { 0nat }) }
-}
-// content of a metadata inverted index built from the slot vectors (metadata, alive): slot number -> metadata map of that slot,
-// for the live slots only (this is the pair `index.alive` / `index.meta(i)` of unit ids_for_filter's index_coherent)
-pub open spec fn slot_layout(md: Seq<HashMap<String, String>>, alive: Seq<Option<u64>>) -> IMap<u64, Map<String, String>> {
-    IMap::new(
-        |i: u64| (i as int) < md.len() && (i as int) < alive.len() && alive[i as int].is_some(),
-        |i: u64| md[i as int]@,
-    )
 }
 // content of an HNSW index built from the embedding vector: one (vector, internal id) pair per slot, in slot order
 pub open spec fn vector_layout(e: Seq<Vec<f32>>) -> Seq<(Seq<f32>, usize)> {
@@ -23,10 +16,6 @@ pub open spec fn vector_layout(e: Seq<Vec<f32>>) -> Seq<(Seq<f32>, usize)> {
 // the (vector, internal id) pairs of a batch handed to HnswVectorIndex::parallel_insert_batch
 pub open spec fn batch_pairs(data: Seq<(&[f32], usize)>) -> Seq<(Seq<f32>, usize)> {
     Seq::new(data.len(), |i: int| (data[i].0@, data[i].1))
-}
-impl MetadataInvertedIndex {
-    // ghost content: internal id (slot) -> the metadata map under which that slot is indexed
-    pub uninterp spec fn indexed(&self) -> IMap<u64, Map<String, String>>;
 }
 impl HnswVectorIndex {
     // ghost content: the (vector, internal id) pairs inserted since construction, in insertion order
